@@ -73,6 +73,19 @@ def edit_in_place(instr, donor, named: bool = False) -> None:
     """Overwrite the operand fields of `instr` with those of `donor` (same class), the way a consumer such as the NV
     transpiler edits instructions it was handed (`instr.line = ...`, `instr.reg0 = ...`)."""
     import dataclasses
+    if named:
+        # first through the NAMED accessors alone: what a setter was given is what its getter returns afterwards
+        for name in dir(type(instr)):
+            prop = getattr(type(instr), name, None)
+            if isinstance(prop, property) and prop.fset is not None and not name.startswith("_") and name not in ("operands",):
+                try:
+                    want = getattr(donor, name)
+                    setattr(instr, name, want)
+                    got = getattr(instr, name)
+                except Exception:
+                    continue
+                if got != want:
+                    raise AssertionError(f"{type(instr).__name__}.{name} was set to {want} and reads back {got}")
     for f in dataclasses.fields(instr):
         if f.name not in ("id", "mnemonic", "lineno"):
             setattr(instr, f.name, getattr(donor, f.name))
